@@ -65,6 +65,15 @@ func (monC03) recoveryTolerance(x *Exec) {
 		if cv == nil {
 			continue
 		}
+		// "after a Failed block no later block invokes anything" holds in the restarted process as well: a block durably
+		// Failed before the crash stays the end of the plan's sequences
+		for bi := 0; bi < oi.Block; bi++ {
+			bp := fmt.Sprintf("P%d/B%d", oi.Plan, bi)
+			if bo := cv.Objs[bp]; bo != nil && bo.Status == workflow.Failed {
+				x.Report(&Violation{Property: "C03", Rule: "invocation-after-failed-block", Signature: "failed-block-across-crash",
+					Msg: fmt.Sprintf("recovery invoked %s although %s was durably Failed before the crash", e.Path, bp)})
+			}
+		}
 		if ss := cv.Objs[oi.Parent]; ss == nil || ss.Status != workflow.NotStarted {
 			continue // it was already in flight (or finished) at the crash
 		}
